@@ -219,3 +219,46 @@ def formula(rep, rule, actual, expected, where, construct, what, pattern_ok=None
         return None
     rep.ob(rule, eq, where, construct, '%s is %s, expected a formula equal to %s' % (what, show(actual)[:140], show(expected)[:100]), sample=sample)
     return eq
+
+
+# -------------------------------------------------------------------- robust argument binding
+def kwargs_of(call):
+    """keyword arguments of a call term including the entries of **{...} dict literals"""
+    out = {}
+    for k, v in call[3]:
+        if k == '**':
+            if v[0] == 'dict':
+                for kk, vv in v[1]:
+                    if kk[0] == 'c' and isinstance(kk[1], str):
+                        out[kk[1]] = vv
+            else:
+                out['**'] = v
+        else:
+            out[k] = v
+    return out
+
+
+def ctor_fields(cx, call):
+    """field/parameter name -> argument term for a call of a repo class (dataclass fields or __init__ parameters) or function"""
+    import ast as _ast
+    if call is None or call[0] != 'call':
+        return {}
+    f = call[1]
+    names = None
+    if f[0] == 'g':
+        lk = cx.model.lookup(f)
+        if lk and lk[0] == 'class':
+            r = cx.model.find_method(f[1], lk[1], '__init__')
+            if r:
+                names = [a.arg for a in r[2].args.args][1:]
+            else:
+                names = [n.target.id for n in lk[1].body if isinstance(n, _ast.AnnAssign) and isinstance(n.target, _ast.Name)]
+        elif lk and lk[0] == 'func':
+            names = [a.arg for a in lk[1].args.args]
+    out = {}
+    if names is not None:
+        for i, a in enumerate(call[2]):
+            if a[0] != 'star' and i < len(names):
+                out[names[i]] = a
+    out.update({k: v for k, v in kwargs_of(call).items() if k != '**'})
+    return out
